@@ -577,14 +577,38 @@ def eintr(ctx):
                         handlers.add(t.q)
     if not handlers:
         raise AnalysisBroken('no function installed through struct sigaction found')
+    # An acquisition is a call of `spin_lock`, or of a primitive the inliner keeps opaque whose own body takes the
+    # lock (`spin_lock_sigmask`: found by what its body does, not by name).  For the latter the obligation is decided
+    # where the lock is really taken: at every `spin_lock` inside the primitive's body, entered with the blocked-ness
+    # the call site has.  (Before: only direct `spin_lock` calls counted, so a tree in which every acquisition
+    # outside the handler goes through the blocking wrapper had "no acquisition".)
+    wrappers = {}
+    for nm_ in sorted(PRIMITIVES):
+        if nm_ == 'spin_lock':
+            continue
+        ws = [x for x in prog.funcs.values() if x.name == nm_ and x.blocks]
+        if ws and any(is_call(x, 'spin_lock') and x['ev'] == 'call' for w in ws for x in inlined(prog, w).events()):
+            wrappers[nm_] = ws
+
     bad, n = [], 0
     reach = {}
-    for o in roles.functions_with(prog, lambda e: is_call(e, 'spin_lock') or is_call(e, 'spin_lock_sigmask')):
+    for o in roles.functions_with(prog, lambda e: e['ev'] == 'call' and (is_call(e, 'spin_lock') or e.get('callee') in wrappers)):
         for c in roles.callers_closure(prog, o):
             reach[c.q] = c
     slot_fns = {prog.resolve(v[0], v[1]).q for slots in prog.method_tables().values() for v in slots.values()
                 if v and v[0] != 'str' and prog.resolve(v[0], v[1]) is not None}
     through_slots = bool(slot_fns & set(reach))
+
+    def inner_blocked(nm_, blocked_at_call):
+        """every spin_lock in every definition of the opaque wrapper runs with signals blocked"""
+        okw = True
+        for w0 in wrappers[nm_]:
+            w = inlined(prog, w0)        # its own helpers inlined; `spin_lock` stays an operation
+            wl = locksets(w, entry=frozenset([SIGBLOCK]) if blocked_at_call else frozenset())
+            for x in w.events():
+                if is_call(x, 'spin_lock') and x['ev'] == 'call' and SIGBLOCK not in held(wl.get((x['_b'], x['_i']))):
+                    okw = False
+        return okw
     for r in roles.roots(prog):
         if r.q in handlers:
             continue
@@ -593,14 +617,21 @@ def eintr(ctx):
         g = inlined(prog, r, expand_methods=True)
         ls = locksets(g)
         for e in g.events():
-            if is_call(e, 'spin_lock') and e['ev'] == 'call':
+            if e['ev'] != 'call':
+                continue
+            H = held(ls.get((e['_b'], e['_i'])))
+            if is_call(e, 'spin_lock'):
                 n += 1
-                if SIGBLOCK not in held(ls.get((e['_b'], e['_i']))):
+                if SIGBLOCK not in H:
+                    bad.append((r, e))
+            elif e.get('callee') in wrappers:
+                n += 1
+                if not inner_blocked(e['callee'], SIGBLOCK in H):
                     bad.append((r, e))
     if not n:
-        raise AnalysisBroken('no spin_lock acquisition outside the signal handler found')
+        raise AnalysisBroken('no spinlock acquisition outside the signal handler found')
     ctx.ob('R-C15c', 'fallback_spin_lock:precondition', not bad, loc=bad[0][1]['loc'] if bad else sorted(handlers)[0],
-           detail='every spin_lock outside the signal handler runs with all signals blocked')
+           detail='every spinlock acquisition outside the signal handler (spin_lock, or the spin_lock inside an opaque lock-taking primitive%s) runs with all signals blocked' % (' ' + '/'.join(sorted(wrappers)) if wrappers else ''))
 
 
 # --------------------------------------------------------------------------
